@@ -113,3 +113,88 @@ Print Assumptions revlex_then_name.
 Example revlex_example :
   sort_by natural_key_revlex ["theta_2"; "beta_2"; "theta_1"; "beta_1"] = ["beta_1"; "theta_1"; "beta_2"; "theta_2"].
 Proof. reflexivity. Qed.
+
+(* ------------------------------------------------------------------------------------------------------------
+   Generated code.  tr/tr_symbolic.py translates, on every run, the Python source of _sorting.py, translations.py,
+   sympy_expressions.py and the classes / reduction of expressions.py construct by construct into Gen/SymbolicGen.v
+   (meaning of the Python building blocks: Serde/SymbolicTrSupport.v).  The theorems below state that the generated
+   definitions ARE the model functions the theorems above are about, for all inputs, so that those theorems are
+   statements about the code as translated and not only about a hand-written model. *)
+Require Coq.QArith.Qcanon.
+Require Import OQ.Serde.SymbolicTrSupport OQ.Gen.SymbolicGen OQ.Serde.SymbolicGenProofs.
+
+(* re.split(r"(\d+)", s), _convert_string_to_int_if_possible, natural_key, natural_key_revlex *)
+Theorem generated_re_split_is_model : forall s : string, py_re_split_digit_runs s = split_digits s.
+Proof. exact re_split_is_model. Qed.
+Print Assumptions generated_re_split_is_model.
+
+Theorem generated_convert_is_model : forall text : string,
+  convert_string_to_int_if_possible_gen text = Ok (conv text).
+Proof. exact convert_gen_is_model. Qed.
+Print Assumptions generated_convert_is_model.
+
+Theorem generated_natural_key_is_model : forall symbol : py_named,
+  natural_key_gen symbol = Ok (natural_key (attr_name symbol)).
+Proof. exact natural_key_gen_is_model. Qed.
+Print Assumptions generated_natural_key_is_model.
+
+Theorem generated_natural_key_revlex_is_model : forall symbol : py_named,
+  natural_key_revlex_gen symbol = Ok (natural_key_revlex (attr_name symbol)).
+Proof. exact natural_key_revlex_gen_is_model. Qed.
+Print Assumptions generated_natural_key_revlex_is_model.
+
+(* expression_from_sympy: the singledispatch over the ten registered implementations, with the reciprocal / negation /
+   sqrt special cases and every exception, on every observed sympy tree and every rounding function *)
+Theorem generated_expression_from_sympy_is_model : forall (rnd : Q -> Q) (e : sexpr),
+  expression_from_sympy_gen rnd e = from_sympy rnd e.
+Proof. exact expression_from_sympy_gen_is_model. Qed.
+Print Assumptions generated_expression_from_sympy_is_model.
+
+(* translate_expression / translate_tuple for every dialect object and every tree *)
+Theorem generated_translate_expression_is_model : forall (T : Type) (d : ExpressionDialect_obj T) (t : nexpr),
+  translate_expression_gen t d =
+  translate (fun s => ExpressionDialect_symbol_factory d (Symbol_new s)) (ExpressionDialect_number_factory d)
+            (ExpressionDialect_known_functions d) t.
+Proof. exact (@translate_expression_gen_is_model). Qed.
+Print Assumptions generated_translate_expression_is_model.
+
+(* SYMPY_DIALECT (with reduction from expressions.py): its table is the model's, entry by entry, and translating
+   with it is translate_sympy *)
+Theorem generated_sympy_dialect_table_is_model : forall (O : Ops) (env : string -> V O) (name : string),
+  ExpressionDialect_known_functions (SYMPY_DIALECT_gen O env) name = sympy_known O name.
+Proof. exact sympy_dialect_gen_known. Qed.
+Print Assumptions generated_sympy_dialect_table_is_model.
+
+Theorem generated_translate_sympy_is_model : forall (O : Ops) (env : string -> V O) (t : nexpr),
+  translate_expression_gen t (SYMPY_DIALECT_gen O env) = translate_sympy O env t.
+Proof. exact translate_with_sympy_dialect_gen_is_model. Qed.
+Print Assumptions generated_translate_sympy_is_model.
+
+(* the two clauses of the property, restated about the generated definitions only *)
+Theorem generated_roundtrip_value : forall (O : Ops), Laws O -> forall (rnd : Q -> Q) (e : sexpr),
+  supported e = true -> neg_ok O e -> rationals_exact rnd e ->
+  exists t, expression_from_sympy_gen rnd e = Ok t /\
+            forall env : string -> V O, translate_expression_gen t (SYMPY_DIALECT_gen O env) = Ok (ev O env e).
+Proof. exact generated_roundtrip. Qed.
+Print Assumptions generated_roundtrip_value.
+
+Theorem generated_unsupported_refused : forall (O : Ops) (rnd : Q -> Q) (e : sexpr),
+  unsupported_inside e = true -> neg_keeps e ->
+  (exists x, expression_from_sympy_gen rnd e = Err x) \/
+  (exists t, expression_from_sympy_gen rnd e = Ok t /\
+             forall env : string -> V O, exists x, translate_expression_gen t (SYMPY_DIALECT_gen O env) = Err x).
+Proof. exact generated_refusal. Qed.
+Print Assumptions generated_unsupported_refused.
+
+(* the generated functions run: x - 2*y as sympy stores it, converted and translated back over exact rationals;
+   natural keys of a name with two digit groups *)
+Example generated_functions_run :
+  expression_from_sympy_gen round53
+    (SAdd [SSym "x"; SMul [SInt (-1); SInt 2; SSym "y"] (Some (SMul [SInt 2; SSym "y"] None))])
+  = Ok (NCall "sub" [NSym "x"; NCall "mul" [NNum (NInt 2); NSym "y"]]) /\
+  match translate_expression_gen (NCall "sub" [NSym "x"; NCall "mul" [NNum (NInt 2); NSym "y"]])
+          (SYMPY_DIALECT_gen QcOps (fun s => if String.eqb s "x" then Qcanon.Q2Qc 5 else Qcanon.Q2Qc (1 # 2)))
+  with Ok v => Qeq_bool (Qcanon.this v) 4 | Err _ => false end = true /\
+  natural_key_gen (Named "beta_10x007") = Ok [KS "beta_"; KI 10; KS "x"; KI 7; KS ""] /\
+  expression_from_sympy_gen round53 (SAdd [SSym "x"; SOther "Pi" []]) = Err ENotImpl.
+Proof. vm_compute. repeat split; reflexivity. Qed.
